@@ -24,7 +24,7 @@ BOUND = {"quick": "depth 3 from 6 initial meshes (direct k=0/k=2, SE dump, WKT, 
 ASSUMPTIONS = ["Vertex.own_big_edges is not constrained by the statement (reported as a diagnostic only)",
                "a call that raises leaves no state; SegmentationArtifactException (and the ValueError that chained contractions produce) is a refusal, not a verdict",
                "holding a shallow copy of the dictionaries models a user who keeps the previous mesh alive (so that __del__ of replaced objects runs late)"]
-REQUIRED_TAGS = {"all": ["resampled", "framed", "contracted", "source:direct", "source:se", "source:wkt", "source:tess", "held"]}
+REQUIRED_TAGS = {"all": ["resampled", "framed", "contracted", "source:direct", "source:se", "source:wkt", "source:tess", "source:raster", "held", "artefact_triangle"]}
 
 GM = [[ne, rse] for ne in (2, 3, 6, 12) for rse in (True, False)]
 OPS = [["gm"] + g for g in GM] + [["frame"], ["hold"], ["release"], ["gc"]]
@@ -78,6 +78,28 @@ def initial_mesh(src):
         sites = T.hex_sites(src[1], src[2], 0.2, src[3]) * 10.0
         els = ft.create_lattice_elements([tuple(p) for p in sites], max_distance=src[4])
         return ft.create_lattice(*els)
+    if kind == "raster":
+        # rasterised Voronoi tissue; src[2] False keeps the non-minimal junction pixels left by thinning (artefact triangles)
+        import forsys.skeleton as fsk
+        from PIL import Image
+        from fsmc.ref import raster as RR
+        from checks import c15
+        nx, ny, jit, pat, scale = src[1]
+        sites = T.hex_sites(nx, ny, jit / 100.0, pat)
+        img, topo = RR.raster(sites, scale, minimal_junctions=src[2])
+        full = np.zeros((img.shape[0] + 4, img.shape[1] + 4), np.uint8)
+        full[2:-2, 2:-2] = img * 255
+        full[0, :] = 255
+        full[-1, :] = 255
+        full[:, 0] = 255
+        full[:, -1] = 255
+        path = os.path.join(c15.tmpdir(), "c09_%d_%s.tif" % (os.getpid(), fsutil.state_hash(src)))
+        Image.fromarray(full).convert("RGB").save(path)
+        try:
+            sk = fsk.Skeleton(path)
+            return sk.create_lattice()
+        finally:
+            os.remove(path)
     if kind == "skeleton":
         import forsys.skeleton as fsk
         sk = fsk.Skeleton(src[1])
@@ -117,6 +139,20 @@ class MeshHistories:
         held = []
         frame = None
         nv0 = len(v)
+        # F13 precondition: the parsed mesh still contains an artefact triangle (three mutually adjacent vertices: a junction
+        # pixel that lies on one cell's contour only makes its edges 'external' for the parser, which then skips the merge)
+        nb = {}
+        vtx = {k: (w.x, w.y) for k, w in v.items()}
+        for ed in e.values():
+            nb.setdefault(ed.v1.id, set()).add(ed.v2.id)
+            nb.setdefault(ed.v2.id, set()).add(ed.v1.id)
+        ed = None      # do not keep the last SmallEdge alive (its __del__ must run when generate_mesh drops it: see F25)
+        # a cycle of three or four mesh edges cannot occur in a skeleton with minimal junction pixels (cells are much longer)
+        tri = any(b in nb[a] and c_ in nb[a] for a in nb for b in nb[a] for c_ in nb[b] if c_ != a and b != a)
+        if not tri:
+            ids_ = sorted(nb)
+            tri = any(len(nb[a] & nb[b]) >= 2 for a in ids_ if len(nb[a]) >= 3 for b in ids_ if b > a and len(nb[b]) >= 3 and b not in nb[a]
+                      and abs(vtx[a][0] - vtx[b][0]) + abs(vtx[a][1] - vtx[b][1]) < 5)
         for n, op in enumerate(d["ops"]):
             try:
                 with fsutil.quiet():
@@ -145,6 +181,8 @@ class MeshHistories:
                     # two-point border interfaces that share a vertex cannot all be contracted; the library fails on them with
                     # KeyError->SegmentationArtifactException, ValueError or IndexError depending on the order
                     return {"viol": [], "tags": tags + ["refused_chained_contraction"], "cls": "refused", "outdom": True}
+                if tri and any(o[0] == "gm" for o in d["ops"][:n + 1]):
+                    return {"viol": [], "known": [{"id": "F13", "exc": fsutil.exc_str(ex), "ops": d["ops"][:n + 1]}], "tags": tags, "cls": "exc-after-F13", "outdom": True}
                 seen_hold = False
                 tainted = False
                 for o in d["ops"][:n]:
@@ -158,9 +196,13 @@ class MeshHistories:
         snap = fsutil.snapshot(v, e, c)
         prob = RM.check_mesh(v, e, c)
         viol, known = [], []
+        if tri:
+            tags.append("artefact_triangle")
         if any(op[0] == "gm" and op[2] for op in d["ops"]) and any(isinstance(k, int) and k >= nv0 for k in v):
             tags.append("contracted")
-        if prob:
+        if prob and tri and any(op[0] == "gm" for op in d["ops"]) and all("not joined by a mesh edge" in x for x in prob):
+            known.append({"id": "F13", "problems": prob[:2], "ops": d["ops"]})
+        elif prob:
             if held and any(op[0] == "gm" for op in d["ops"]):
                 # the previous SmallEdge/Cell objects are still alive (the user kept them): their __del__ has not run, so the
                 # vertices still list the old edge ids next to the new ones (or lose new ids when the old objects die later)
@@ -190,7 +232,7 @@ def build(tier, seed):
     inner = max(at["C"], key=lambda c: len(adj[c]))
     hole = [c for c in sorted(at["C"], key=int) if c != inner]
     few = [["direct", "v5x4", None, 0], ["direct", "v5x4", None, 2], ["se", "v5x4", None, 2], ["wkt", "v5x4", None, 1],
-           ["tess", 5, 4, seed + 1, 40.0], ["direct", "v5x5", hole, 0]]
+           ["tess", 5, 4, seed + 1, 40.0], ["direct", "v5x5", hole, 0], ["raster", [5, 4, 15, 0, 40], True], ["raster", [5, 4, 15, 0, 40], False]]
     light = [["gm", 2, True], ["gm", 6, True], ["gm", 3, False], ["frame"], ["hold"], ["release"]]
     if tier == "quick":
         return [MeshHistories("parsers-depth3", few, 3),
